@@ -2,6 +2,7 @@ import GoSup.Model.Planner
 import GoSup.Model.Cluster
 import GoSup.Spec.C16
 import GoSup.Proofs.Planner
+import GoSup.Proofs.Cluster
 /-!
 # C16 — property theorems (httpcluster diff planner and update execution)
 -/
@@ -111,6 +112,297 @@ theorem plan_fails_with_clash :
     let cur : Entries := [("a", { id := "a", cfg := 1, runner := some 10, action := .none })]
     let des : List (String × Nat) := [("a", 2), ("a:stop", 3)]
     noClash cur des = false ∧ planOk cur des (buildPending cur des) (commit (buildPending cur des)) = false := by
+  decide
+
+/-! ## the update executor (`processConfigUpdate` / `executeActions` / `shutdown`) — for every map, every
+sequence of maps, every iteration order, every pattern of start failures
+
+`Committed cur`: what the cluster holds between two updates.  `Acc cur effs next`: over the whole effect log
+`effs` of the run so far, the instances started and not yet stopped (`Live effs`) are exactly the runners held
+in `cur`, each under one key.  `fate` says, for this update, which ids start fine, fail in the factory, or
+never become ready. -/
+open GoSup.Cluster
+
+/-- **Unchanged entries keep their server instance** (no stop, no start: the entry is literally the same). -/
+theorem c16_unchanged_kept (fate : String → Fate) {cur : Entries} {des : List (String × Nat)} (next : Nat)
+    (hw : Wf cur des) (hc : Committed cur) {K : String} {e : Entry} (hK : get cur K = some e)
+    (hsame : lookupD des K = some e.cfg) :
+    get (applyUpdate fate cur des next).entries K = some e := by
+  have hp := plan_unchanged cur des hw K e (mem_of_get hK) hsame
+  have := get_update fate cur des next K
+  rw [hp] at this
+  simp only at this
+  rw [this]
+  have := (hc.shape K e hK).2.1
+  cases e; simp_all
+
+/-- **Removed entries are gone** (and, with `c16_old_stopped_first`, stopped): an id the map does not list is not served afterwards. -/
+theorem c16_removed_gone (fate : String → Fate) {cur : Entries} {des : List (String × Nat)} (next : Nat)
+    (hw : Wf cur des) (hc : Committed cur) {K : String} (hgone : lookupD des K = none) :
+    get (applyUpdate fate cur des next).entries K = none := by
+  have hu := get_update fate cur des next K
+  cases hK : get cur K with
+  | some e =>
+    obtain ⟨_, _, hr⟩ := hc.shape K e hK
+    obtain ⟨inst, hinst⟩ := Option.isSome_iff_exists.mp hr
+    have hp := plan_removed_running cur des hw K e inst (mem_of_get hK) hgone hinst
+    rw [hp] at hu
+    exact hu
+  | none =>
+    have hKc : K ∉ keysOf cur := fun hm => by
+      simp only [keysOf, List.mem_map] at hm
+      obtain ⟨⟨k, e⟩, hm, rfl⟩ := hm
+      have := get_isSome_of_mem hm
+      simp [hK] at this
+    have hKd : K ∉ des.map (·.1) := lookupD_none_not_mem (by simp [hgone])
+    cases hg : get (buildPending cur des) K with
+    | none => rw [hg] at hu; exact hu
+    | some e =>
+      rw [hg] at hu
+      simp only [plan_other hKc hKd hg] at hu
+      exact hu
+
+/-- **New and changed entries**: an id whose configuration is new or differs is served afterwards by a *fresh*
+instance with exactly the desired configuration if it could be started, and is dropped (without touching any other
+entry: see the other theorems, which do not mention `fate`) if it could not. -/
+theorem c16_new_or_changed (fate : String → Fate) {cur : Entries} {des : List (String × Nat)} (next : Nat)
+    (hw : Wf cur des) (hc : Committed cur) (hnd : (des.map (·.1)).Nodup) {K : String} {c : Nat}
+    (hwant : lookupD des K = some c) (hdiff : ∀ e, get cur K = some e → e.cfg ≠ c) :
+    (fate K = .ok → ∃ i, next ≤ i ∧ i < (applyUpdate fate cur des next).next
+        ∧ get (applyUpdate fate cur des next).entries K = some { id := K, cfg := c, runner := some i, action := .none })
+    ∧ (fate K ≠ .ok → get (applyUpdate fate cur des next).entries K = none) := by
+  have hp : get (buildPending cur des) K = some (startEntry K c) := by
+    cases hK : get cur K with
+    | some e =>
+      obtain ⟨_, _, hr⟩ := hc.shape K e hK
+      obtain ⟨inst, hinst⟩ := Option.isSome_iff_exists.mp hr
+      exact (plan_changed_running cur des hw K e c inst (mem_of_get hK) hwant (hdiff e hK) hinst).2
+    | none =>
+      have hKc : K ∉ keysOf cur := fun hm => by
+        simp only [keysOf, List.mem_map] at hm
+        obtain ⟨⟨k, e⟩, hm, rfl⟩ := hm
+        have := get_isSome_of_mem hm
+        simp [hK] at this
+      exact plan_new hw hnd hKc hwant
+  have hu := get_update fate cur des next K
+  rw [hp] at hu
+  simpa [startEntry] using hu
+
+/-- **The state between updates is re-established** (so that all of this holds for every sequence of maps) -/
+theorem c16_committed (fate : String → Fate) {cur : Entries} {des : List (String × Nat)} (next : Nat)
+    (hc : Committed cur) : Committed (applyUpdate fate cur des next).entries := by
+  have hndp := nodup_buildPending cur des
+  have hnds : (keysOf (stopPhase (buildPending cur des)).1).Nodup := by rw [keysOf_stopPhase]; exact hndp
+  refine ⟨nodup_commit (startFold_nodup _ hnds), ?_⟩
+  intro K e he
+  have hu := get_update fate cur des next K
+  cases hg : get (buildPending cur des) K with
+  | none => rw [hg] at hu; simp only at hu; rw [hu] at he; cases he
+  | some e0 =>
+    rw [hg] at hu
+    simp only at hu
+    rcases mem_buildPending (mem_of_get hg) with ⟨⟨k0, c0⟩, hp, hq⟩ | ⟨d, _, hq⟩
+    · rcases mem_processExisting hq with ⟨h1, _⟩ | ⟨h1, _⟩ | ⟨c, h1, _⟩
+      · simp only at h1
+        rw [h1] at hu; simp only at hu
+        rw [hu] at he; cases he
+      · simp only [Prod.mk.injEq] at h1
+        obtain ⟨hk, he0⟩ := h1
+        subst hk
+        rw [he0] at hu; simp only at hu
+        rw [hu] at he; cases he
+        have := hc.shape K c0 (get_of_mem_nodup hc.nodup hp)
+        exact ⟨this.1, rfl, this.2.2⟩
+      · simp only [Prod.mk.injEq] at h1
+        obtain ⟨hk, he0⟩ := h1
+        subst hk
+        rw [he0] at hu
+        simp only [startEntry] at hu
+        by_cases hf : fate K = .ok
+        · obtain ⟨i, _, _, hi⟩ := hu.1 hf
+          rw [hi] at he; cases he; exact ⟨rfl, rfl, rfl⟩
+        · rw [hu.2 hf] at he; cases he
+    · simp only [Prod.mk.injEq] at hq
+      obtain ⟨hk, he0⟩ := hq
+      subst hk
+      rw [he0] at hu
+      simp only [startEntry] at hu
+      by_cases hf : fate d.1 = .ok
+      · obtain ⟨i, _, _, hi⟩ := hu.1 hf
+        rw [hi] at he; cases he; exact ⟨rfl, rfl, rfl⟩
+      · rw [hu.2 hf] at he; cases he
+
+/-- **Nothing is leaked, nothing is counted twice** (`acc_applyUpdate`, restated): after any update the instances
+started and not yet stopped are exactly the runners in the committed entries. -/
+theorem c16_accounting (fate : String → Fate) {cur : Entries} {effs : List Eff} {next : Nat} {des : List (String × Nat)}
+    (h : Acc cur effs next) (hw : Wf cur des) :
+    Acc (applyUpdate fate cur des next).entries (effs ++ (applyUpdate fate cur des next).effects)
+      (applyUpdate fate cur des next).next := acc_applyUpdate h hw
+
+/-- **The old server is fully stopped before any replacement is started**: the effect log of an update is the log of
+the stop phase (only `Stop()`s) followed by the log of the start phase, and the `Stop()` of every instance that is not
+kept — its id was removed or its configuration changed — is in the first part. -/
+theorem c16_old_stopped_first (fate : String → Fate) {cur : Entries} {effs : List Eff} {next : Nat} {des : List (String × Nat)}
+    (h : Acc cur effs next) (hw : Wf cur des) :
+    (applyUpdate fate cur des next).effects
+        = (stopPhase (buildPending cur des)).2 ++ (startPhase fate (stopPhase (buildPending cur des)).1 next).effects
+    ∧ (∀ ε ∈ (stopPhase (buildPending cur des)).2, ∃ i, ε = Eff.stop i)
+    ∧ (∀ k e i, get cur k = some e → e.runner = some i → lookupD des k ≠ some e.cfg →
+        Eff.stop i ∈ (stopPhase (buildPending cur des)).2) := by
+  refine ⟨rfl, ?_, ?_⟩
+  · intro ε hε
+    rcases stopFold_effs _ hε with h1 | h1
+    · simp at h1
+    · exact h1
+  · intro k e i hk hr hnot
+    have hacc := acc_after_stop h hw
+    have hlive : Live effs i := (h.live i).mpr ⟨k, e, hk, hr⟩
+    -- after the stop phase the instance is no longer held by any entry
+    have hnot_at : ¬ RunnerAt (stopPhase (buildPending cur des)).1 i := by
+      rintro ⟨K, e', hK, hr'⟩
+      rw [get_stopPhase] at hK
+      split at hK
+      · cases hg : get (buildPending cur des) K with
+        | none => simp [hg] at hK
+        | some e0 => simp only [hg, Option.map_some, Option.some.injEq] at hK; rw [← hK] at hr'; simp [clr] at hr'
+      · rename_i hns
+        obtain ⟨k', e0, hp, hr0, hq⟩ := pending_runner_origin (mem_of_get hK) hr'
+        have g0 := get_of_mem_nodup hw.nodup hp
+        have hkk : k' = k := h.inj k' k e0 e i g0 hk hr0 hr
+        subst hkk
+        rw [hk] at g0; cases g0
+        rcases mem_processExisting hq with ⟨h1, _⟩ | ⟨_, h1⟩ | ⟨c, h1, _⟩
+        · simp only at h1
+          exact hns ((mem_toStop (nodup_buildPending cur des) K).mpr ⟨e', hK, by rw [h1]⟩)
+        · exact hnot h1
+        · simp only [Prod.mk.injEq] at h1; rw [h1.2] at hr'; simp [startEntry] at hr'
+    have hnl : ¬ Live (effs ++ (stopPhase (buildPending cur des)).2) i := fun hl => hnot_at ((hacc.live i).mp hl)
+    -- it was started and not stopped before, so its Stop() is in the stop phase's log
+    apply Classical.byContradiction
+    intro hns
+    apply hnl
+    refine ⟨?_, ?_⟩
+    · obtain ⟨id, c, hs⟩ := hlive.1
+      exact ⟨id, c, List.mem_append_left _ hs⟩
+    · intro hm
+      rcases List.mem_append.mp hm with hm | hm
+      · exact hlive.2 hm
+      · exact hns hm
+
+/-- **GetServerCount() = the number of servers started and not yet stopped**: between updates the runners of the
+entries enumerate the live instances without repetition, one per entry. -/
+theorem c16_count {cur : Entries} {effs : List Eff} {next : Nat} (hc : Committed cur) (h : Acc cur effs next) :
+    (cur.filterMap fun p => p.2.runner).Nodup
+    ∧ (cur.filterMap fun p => p.2.runner).length = cur.length
+    ∧ ∀ i, i ∈ (cur.filterMap fun p => p.2.runner) ↔ Live effs i := by
+  refine ⟨runners_nodup hc.nodup h.inj, ?_, ?_⟩
+  · apply filterMap_length_of_all_some
+    intro p hp
+    exact (hc.shape p.1 p.2 (get_of_mem_nodup hc.nodup hp)).2.2
+  · intro i
+    rw [h.live i]
+    simp only [List.mem_filterMap]
+    constructor
+    · rintro ⟨⟨k, e⟩, hm, hr⟩
+      exact ⟨k, e, get_of_mem_nodup hc.nodup hm, hr⟩
+    · rintro ⟨k, e, hk, hr⟩
+      exact ⟨(k, e), mem_of_get hk, hr⟩
+
+/-! ### every sequence of maps, arbitrary ids -/
+
+/-- the ids in use never collide with the planner's `":stop"` keys (the precondition whose failure is finding C16-F1) -/
+def IdsOk (U : List String) : Prop := ∀ a ∈ U, ∀ b ∈ U, a ++ ":stop" ≠ b
+
+/-- a pushed map: a Go map (distinct ids) over the id universe -/
+structure StepOk (U : List String) (s : Step) : Prop where
+  nodup : (s.des.map (·.1)).Nodup
+  sub   : ∀ k ∈ s.des.map (·.1), k ∈ U
+
+theorem wf_of_universe {U : List String} (hU : IdsOk U) {cur : Entries} {des : List (String × Nat)}
+    (hnd : (keysOf cur).Nodup) (hcur : ∀ k ∈ keysOf cur, k ∈ U) (hdes : ∀ k ∈ des.map (·.1), k ∈ U) : Wf cur des := by
+  refine ⟨hnd, ?_⟩
+  simp only [noClash, List.all_eq_true, Bool.and_eq_true]
+  intro p hp
+  have hpU : p.1 ∈ U := hcur p.1 (List.mem_map_of_mem (f := (·.1)) hp)
+  constructor
+  · have : p.1 ++ ":stop" ∉ keysOf cur := fun hm => hU p.1 hpU _ (hcur _ hm) rfl
+    rw [get_eq_none_of_not_mem this]; rfl
+  · have : p.1 ++ ":stop" ∉ des.map (·.1) := fun hm => hU p.1 hpU _ (hdes _ hm) rfl
+    rw [lookupD_eq_none_of_not_mem this]; rfl
+
+/-- the invariant of the event loop -/
+structure LoopInv (U : List String) (a : Res) : Prop where
+  committed : Committed a.entries
+  acc : Acc a.entries a.effects a.next
+  keys : ∀ k ∈ keysOf a.entries, k ∈ U
+
+theorem keys_update_sub (fate : String → Fate) {cur : Entries} {des : List (String × Nat)} (next : Nat)
+    (hw : Wf cur des) (hc : Committed cur) {k : String} (hk : k ∈ keysOf (applyUpdate fate cur des next).entries) :
+    k ∈ des.map (·.1) := by
+  apply Classical.byContradiction
+  intro hnot
+  have hgone := c16_removed_gone fate next hw hc (lookupD_eq_none_of_not_mem hnot)
+  simp only [keysOf, List.mem_map] at hk
+  obtain ⟨⟨k', e⟩, hm, rfl⟩ := hk
+  have := get_isSome_of_mem hm
+  simp [hgone] at this
+
+theorem loopInv_step {U : List String} (hU : IdsOk U) {a : Res} (h : LoopInv U a) {s : Step} (hs : StepOk U s) :
+    LoopInv U { entries := (applyUpdate s.fate a.entries s.des a.next).entries,
+                effects := a.effects ++ (applyUpdate s.fate a.entries s.des a.next).effects,
+                next := (applyUpdate s.fate a.entries s.des a.next).next } := by
+  have hw := wf_of_universe hU h.committed.nodup h.keys hs.sub
+  exact ⟨c16_committed s.fate a.next h.committed, acc_applyUpdate h.acc hw,
+    fun k hk => hs.sub k (keys_update_sub s.fate a.next hw h.committed hk)⟩
+
+theorem loopInv_runSteps {U : List String} (hU : IdsOk U) (steps : List Step) (hs : ∀ s ∈ steps, StepOk U s)
+    {a : Res} (h : LoopInv U a) : LoopInv U (runSteps steps a) := by
+  induction steps generalizing a with
+  | nil => exact h
+  | cons s t ih =>
+    simp only [runSteps, List.foldl_cons]
+    exact ih (fun s' hs' => hs s' (List.mem_cons_of_mem _ hs')) (loopInv_step hU h (hs s List.mem_cons_self))
+
+/-- **While running, after any sequence of maps**: the committed entries and the effect log of the whole run so far
+satisfy `Committed` and `Acc` — so `c16_count`, `c16_unchanged_kept`, `c16_removed_gone`, `c16_new_or_changed`,
+`c16_old_stopped_first` apply to the next map, whatever came before and whichever starts failed. -/
+theorem c16_every_sequence {U : List String} (hU : IdsOk U) (steps : List Step) (hs : ∀ s ∈ steps, StepOk U s) :
+    LoopInv U (runSteps steps { entries := [], effects := [], next := 1 }) :=
+  loopInv_runSteps hU steps hs ⟨committed_nil, acc_init, by simp [keysOf]⟩
+
+/-- **When `Run()` returns every server ever started has been stopped** — for every sequence of maps over any ids
+that do not collide with the `":stop"` keys, and every pattern of transient or permanent start failures: the final
+entries are empty and no instance of the whole effect log is live. -/
+theorem c16_run_all_stopped {U : List String} (hU : IdsOk U) (steps : List Step) (hs : ∀ s ∈ steps, StepOk U s) :
+    (runCluster steps).entries = [] ∧ ∀ i, ¬ Live (runCluster steps).effects i := by
+  have hinv := c16_every_sequence hU steps hs
+  have hw : Wf (runSteps steps { entries := [], effects := [], next := 1 }).entries [] :=
+    wf_of_universe hU hinv.committed.nodup hinv.keys (by simp)
+  have hnil : (runCluster steps).entries = [] := by
+    apply nil_of_get_none
+    intro K
+    exact c16_removed_gone _ _ hw hinv.committed rfl
+  refine ⟨hnil, ?_⟩
+  intro i hl
+  have hacc := acc_applyUpdate (fate := fun _ => Fate.ok) hinv.acc hw
+  have := (hacc.live i).mp hl
+  obtain ⟨K, e, hK, _⟩ := this
+  have hnil' : (applyUpdate (fun _ => Fate.ok) (runSteps steps { entries := [], effects := [], next := 1 }).entries []
+      (runSteps steps { entries := [], effects := [], next := 1 }).next).entries = [] := hnil
+  rw [hnil'] at hK
+  simp [Planner.get] at hK
+
+/-- the hypotheses are satisfiable by a non-trivial history and the conclusions are computed there: three maps over
+`a`, `b`, `c` with a changed configuration, a removal, a factory error and a server that never becomes ready -/
+example :
+    let steps : List Step :=
+      [{ des := [("a", 1), ("b", 1)], fate := fun _ => .ok },
+       { des := [("a", 2), ("b", 1), ("c", 1)], fate := fun id => if id == "c" then .notReady else .ok },
+       { des := [("b", 1), ("c", 2)], fate := fun id => if id == "c" then .factoryErr else .ok }]
+    (runSteps steps { entries := [], effects := [], next := 1 }).effects
+      = [.start "a" 1 1, .start "b" 1 2, .stop 1, .start "a" 2 3, .start "c" 1 4, .stop 4, .dropped "c", .stop 3, .dropped "c"]
+    ∧ running (runSteps steps { entries := [], effects := [], next := 1 }).entries = [("b", 1, 2)]
+    ∧ (runCluster steps).effects.getLast? = some (.stop 2) := by
   decide
 
 end GoSup.Props.C16
